@@ -127,8 +127,9 @@ class Models:
                 return m_opaque
         if callee is not None and callee.krate in ('alloc', 'std') and not key.startswith('std_detect'):
             # the allocator and std internals are outside the analysed crate: opaque (havoc), never inlined
-            self.cache[key] = m_opaque
-            return m_opaque
+            m = m_box_from_slice if (BOX_FROM_SLICE.search(key) or BOX_CLONE.search(key)) else m_opaque
+            self.cache[key] = m
+            return m
         for rx, fn in self.table:
             if rx.search(key):
                 m = fn
@@ -461,6 +462,32 @@ class Models:
 # ---------------------------------------------------------------------------- helpers
 def ret1(st, v):
     return [(st, v)]
+
+
+BOX_FROM_SLICE = re.compile(r'^(std|alloc)::boxed::convert::<impl core::convert::From<&\[\w+\]> for (std|alloc)::boxed::Box<\[\w+\]>>::from$')
+
+
+BOX_CLONE = re.compile(r'^<(std|alloc)::boxed::Box<\[\w+\]> as core::clone::Clone>::clone$')
+
+
+def m_box_from_slice(I, fr, st, t, args, key):
+    """axiom (standard library): `Box::<[T]>::from(&[T])` and `Box<[T]>::clone` are fresh allocations
+    of the same length"""
+    ret = I.havoc_call(fr, st, t, args, key)
+    a = args[0]
+    if isinstance(a, RefV):
+        from . import mm
+        a = mm.follow(I, st, a)
+        for _ in range(5):
+            if isinstance(a, AdtV) and a.fields:
+                a = a.fields[0]
+    x = ret
+    for _ in range(5):
+        if isinstance(x, AdtV) and x.fields:
+            x = x.fields[0]
+    if isinstance(a, SliceV) and isinstance(x, SliceV):
+        st.store.add_eq(x.n - a.n)
+    return ret1(st, ret)
 
 
 def m_opaque(I, fr, st, t, args, key):
